@@ -208,6 +208,9 @@ type AgentMsg = (Job, mpsc::Sender<()>);
 
 struct SysSide {
     sys: System,
+    /// while Some: the system thread is kept busy inside the agent task (it drains neither the system's command queue nor
+    /// anything else) until the sender is dropped
+    sys_gate: std::cell::RefCell<Option<mpsc::Sender<()>>>,
     agent: tokio::sync::mpsc::UnboundedSender<AgentMsg>,
     ret_rx: mpsc::Receiver<String>,
     thread: ThreadId,
@@ -260,12 +263,29 @@ fn start_system(userun: bool, reuse: bool) -> SysSide {
         let _ = ret_tx.send(r);
     });
     let (sys, agent, thread) = info_rx.recv().unwrap();
-    SysSide { sys, agent, ret_rx, thread }
+    SysSide { sys, sys_gate: std::cell::RefCell::new(None), agent, ret_rx, thread }
 }
 
 impl SysSide {
+    /// keep the system thread busy until `release_gate` (or the end of the case)
+    fn hold_gate(&self) {
+        if self.sys_gate.borrow().is_some() {
+            return;
+        }
+        let (gtx, grx) = mpsc::channel::<()>();
+        let (atx, _arx) = mpsc::channel();
+        if self.agent.send((Box::new(move || { let _ = grx.recv(); }), atx)).is_ok() {
+            *self.sys_gate.borrow_mut() = Some(gtx);
+        }
+    }
+    fn release_gate(&self) {
+        self.sys_gate.borrow_mut().take();
+    }
     /// run `job` on the system thread; false if that thread no longer runs its loop (job not executed)
     fn on_sys_thread(&self, job: Job) -> bool {
+        if self.sys_gate.borrow().is_some() {
+            return false; // the system thread is being kept busy: the caller falls back to its own thread
+        }
         let (atx, arx) = mpsc::channel();
         if self.agent.send((job, atx)).is_err() {
             return false;
@@ -446,6 +466,7 @@ fn run_case(userun: bool, seed: u64, ops: &[Op]) -> String {
                 'u'
             }
             Op::WaitRun => {
+                side.release_gate();
                 for sl in slots.iter_mut() {
                     sl.gate = None;
                 }
@@ -458,6 +479,7 @@ fn run_case(userun: bool, seed: u64, ops: &[Op]) -> String {
                 None => 'j',
                 Some(slot) if slot.joined => 'j',
                 Some(slot) => {
+                    side.release_gate();
                     slot.gate = None; // release the gate task, if any
                     let arb = slot.owner.take().expect("script joins an arbiter it has dropped");
                     let (tx, rx) = mpsc::channel();
@@ -477,6 +499,14 @@ fn run_case(userun: bool, seed: u64, ops: &[Op]) -> String {
                     }
                 }
             },
+            Op::Drop(90) => {
+                side.hold_gate();
+                'u'
+            }
+            Op::Drop(91) => {
+                side.release_gate();
+                'u'
+            }
             Op::Drop(k) => {
                 if let Some(slot) = slots.get_mut(k) {
                     slot.owner.take();
@@ -502,6 +532,7 @@ fn run_case(userun: bool, seed: u64, ops: &[Op]) -> String {
         };
         res.push(c);
     }
+    side.release_gate();
     if ret.is_none() {
         // the loop may have ended through a task-issued stop nobody waited for
         thread::sleep(Duration::from_micros(200));
